@@ -392,6 +392,11 @@ class Run:
                 if signature not in self.known_hit:
                     self.known_hit[signature] = (k, what, replay)
                 return False
+        same = sum(1 for v in self.violations if v["signature"] == signature)
+        self.suppressed = getattr(self, "suppressed", 0)
+        if same >= 3 or len(self.violations) >= 24:
+            self.suppressed += 1
+            return True
         self.violations.append(dict(signature=signature, what=what, replay=replay, found_input=True))
         return True
 
